@@ -21,6 +21,22 @@ def main():
             status["%s::%s" % (d["Package"], d["Test"])] = d["Action"]
     want = json.load(open(BASE))["stable_pass"]
     bad = [t for t in want if status.get(t) != "pass"]
+    # internal/repository/dir TestRep_Get compares the free disk space of two consecutive calls and so
+    # fails when anything else writes to the disk meanwhile: re-run failing packages (up to twice)
+    for _ in range(2):
+        if not bad:
+            break
+        pkgs = sorted({t.split("::")[0] for t in bad})
+        p = subprocess.run(["go", "test", "-json", "-vet=off", "-count=1", "-timeout", "25m"] + pkgs, cwd=REPO, env=env,
+                           stdout=subprocess.PIPE, stderr=subprocess.DEVNULL, text=True)
+        for line in p.stdout.splitlines():
+            try:
+                d = json.loads(line)
+            except ValueError:
+                continue
+            if d.get("Test") and d.get("Action") == "pass":
+                status["%s::%s" % (d["Package"], d["Test"])] = "pass"
+        bad = [t for t in want if status.get(t) != "pass"]
     print("baseline: %d of %d stable tests pass" % (len(want) - len(bad), len(want)))
     for t in bad[:40]:
         print("  NOT PASSING:", t, status.get(t, "missing"))
